@@ -4,6 +4,7 @@ import (
 	"fmt"
 	"go/constant"
 	"go/token"
+	"sort"
 
 	"golang.org/x/tools/go/ssa"
 )
@@ -362,7 +363,17 @@ func r095(c *Ctx, r *R) {
 		if f == nil {
 			continue
 		}
-		st := findCalls(f, false, "api.Metric).SetTTL")
+		// in the function or in a constructor of the ping metric shared by
+		// the two (same package, static call)
+		var st []ssa.CallInstruction
+		var cl []*ssa.Function
+		for g := range ssaClosure(f) {
+			cl = append(cl, g)
+		}
+		sort.Slice(cl, func(i, j int) bool { return cl[i].Pos() < cl[j].Pos() })
+		for _, g := range cl {
+			st = append(st, findCalls(g, false, "api.Metric).SetTTL")...)
+		}
 		if len(st) != 1 {
 			r.Bad("ping-ttl:"+n, f.Pos(), "%s has %d SetTTL calls", n, len(st))
 			continue
@@ -417,24 +428,34 @@ func r095(c *Ctx, r *R) {
 			continue
 		}
 		ttl, _ := originCall(bo.X)
-		k, isK := constInt(bo.Y)
-		if ttl == nil || !nameMatches(callName(ttl.Common()), "api.Metric).GetTTL") || !isK {
+		if ttl == nil || !nameMatches(callName(ttl.Common()), "api.Metric).GetTTL") {
 			r.Und("informer:reset-shape", ci.Pos(), "timer re-armed with something other than metric.GetTTL() / constant")
 			continue
 		}
-		onErr := guardedBy(ci.Block(), func(g Guard) bool {
+		isErr := func(g Guard) bool {
 			return gNil(g, true, func(v ssa.Value) bool { cc, _ := originCall(v); return ssa.Value(cc) == sendV })
-		})
-		which := "success"
-		if onErr {
-			which = "error"
-			nErr++
-			kErr = k
-		} else {
-			nOK++
-			kOK = k
 		}
-		r.Check(k > 1, "informer:rearm-"+which, ci.Pos(), fmt.Sprintf("after %s the metric is re-published at TTL/%d", which, k), fmt.Sprintf("after %s the informer metric is re-published at TTL/%d: not before the previous one expires", which, k))
+		// the divisor may be chosen per path (one Reset, `4` after an
+		// error and `2` otherwise): each constant with the guards of the
+		// path it arrives on
+		for _, lf := range valueLeaves(bo.Y, ci.Block()) {
+			k, isK := constInt(lf.Val)
+			if !isK {
+				r.Und("informer:reset-shape", ci.Pos(), "timer re-armed with something other than metric.GetTTL() / constant")
+				continue
+			}
+			onErr := guardedBy(ci.Block(), isErr) || lf.GuardedBy(isErr)
+			which := "success"
+			if onErr {
+				which = "error"
+				nErr++
+				kErr = k
+			} else {
+				nOK++
+				kOK = k
+			}
+			r.Check(k > 1, "informer:rearm-"+which, ci.Pos(), fmt.Sprintf("after %s the metric is re-published at TTL/%d", which, k), fmt.Sprintf("after %s the informer metric is re-published at TTL/%d: not before the previous one expires", which, k))
+		}
 	}
 	// one effective re-arm per round: after a Reset no other Reset is
 	// reachable before the loop waits on the timer again (a later Reset
